@@ -49,6 +49,37 @@ type Grammar struct {
 	Expect   string // "accept", "reject" or "" (unknown) — documentation only
 	Note     string
 	Src      string
+	Naming   string // "": rules lower-case (sort after the tokens); "B": rules "A<name>", tokens "Z<NAME>" (rules sort first)
+}
+
+// RN / TN give the names used in the generated specification.
+func (g *Grammar) RN(rule string) string {
+	if g.Naming == "B" {
+		return "A" + rule
+	}
+	return rule
+}
+
+func (g *Grammar) TN(tok string) string {
+	if g.Naming == "B" {
+		return "Z" + tok
+	}
+	return tok
+}
+
+func (g *Grammar) termLox(t *Term) string {
+	var s string
+	switch t.Kind {
+	case TTok:
+		s = g.TN(t.Name)
+	case TNT:
+		s = g.RN(t.Name)
+	case TErr:
+		s = "@error"
+	case TList:
+		s = "@list(" + g.termLox(t.Elem) + ", " + g.termLox(t.Sep) + ")"
+	}
+	return s + t.Card
 }
 
 // ParseGrammar reads the compact notation:
@@ -247,14 +278,14 @@ func (g *Grammar) Lox() string {
 	var sb strings.Builder
 	sb.WriteString("@lexer\n\n")
 	for i, t := range g.Tokens {
-		fmt.Fprintf(&sb, "%s = '%s'\n", t, TokenLiteral(i))
+		fmt.Fprintf(&sb, "%s = '%s'\n", g.TN(t), TokenLiteral(i))
 	}
 	sb.WriteString("\n@frag ' '+ @discard\n\n@parser\n\n")
 	for ri, r := range g.Rules {
 		if ri == 0 {
 			sb.WriteString("@start ")
 		}
-		sb.WriteString(r.Name + " = ")
+		sb.WriteString(g.RN(r.Name) + " = ")
 		for pi, p := range r.Prods {
 			if pi > 0 {
 				sb.WriteString("\n    | ")
@@ -266,7 +297,7 @@ func (g *Grammar) Lox() string {
 				if ti > 0 {
 					sb.WriteString(" ")
 				}
-				sb.WriteString(p.Terms[ti].Lox())
+				sb.WriteString(g.termLox(&p.Terms[ti]))
 			}
 			if p.Assoc != "" {
 				fmt.Fprintf(&sb, " @%s(%d)", p.Assoc, p.Prec)
@@ -406,7 +437,7 @@ func (p *parser) act(rule, prod int, args ...any) *Node {
 	for ri, r := range g.Rules {
 		for gi, grp := range g.Groups(ri) {
 			p := r.Prods[grp[0]]
-			fmt.Fprintf(&sb, "// productions %v of %s\nfunc (p *parser) on_%s__g%d(", grp, r.Name, r.Name, gi)
+			fmt.Fprintf(&sb, "// productions %v of %s\nfunc (p *parser) on_%s__g%d(", grp, r.Name, g.RN(r.Name), gi)
 			var args []string
 			for ti := range p.Terms {
 				if ti > 0 {
